@@ -4,7 +4,8 @@ from streams import *
 
 
 class Fail(Exception):
-    pass
+    def __init__(self, kind=None):
+        self.kind = kind
 
 
 # bodies: (source using loop variable v and outer k, python function (v, k, log) -> value or raise Fail)
@@ -23,9 +24,24 @@ def b_call(v, k, log):
     log.append(("fa", [vi(v)]))
     return v > 2
 def b_ub(v, k, log): raise Fail()
+def b_call_div(v, k, log):
+    log.append(("fa", [vi(v)]))
+    if v - 5 == 0:
+        raise Fail("Ediv")
+    return (v >= 0) == (v - 5 > 0) and abs(v) // abs(v - 5) > 0
+def b_two_failures(v, k, log):
+    log.append(("fa", [vi(v)]))
+    if v == 3:
+        raise Fail("Ebind:7562")
+    if v == 5:
+        raise Fail("Ediv")
+    return v > 0
 
 PREDS = [("v > k", b_gt), ("v % 2 == 0", b_even), ("v == 3", b_eq3), ("true", b_true), ("false", b_false),
-         ("v / (v - 5) > 0", b_div), ("fa(v) > 2", b_call), ("ub > v", b_ub), ("v", lambda v, k, log: v != 0)]
+         ("v / (v - 5) > 0", b_div), ("fa(v) > 2", b_call), ("ub > v", b_ub), ("v", lambda v, k, log: v != 0),
+         # a body that is observed (call log) and fails, at one element or with different failures at different elements:
+         # the macro stops at the first failing element and fails with that failure
+         ("fa(v) / (v - 5) > 0", b_call_div), ("fa(v) > 0 && (v == 3 ? ub > 0 : (v == 5 ? 1 / (v - 5) > 0 : true))", b_two_failures)]
 EXPRS = [("v * 2", lambda v, k, log: v * 2), ("v + k", lambda v, k, log: v + k), ("k", lambda v, k, log: k),
          ("fa(v)", lambda v, k, log: (log.append(("fa", [vi(v)])), v)[1]),
          ("10 / (v - 5)", lambda v, k, log: div(10, v - 5))]
@@ -60,8 +76,8 @@ def run(chk):
         log = []
         try:
             val = ("OK", f_expect(log))
-        except Fail:
-            val = ("ERR", None)
+        except Fail as f_:
+            val = ("ERR", f_.kind)
         binds = [("l", vlist([vi(x) for x in l])), ("k", vi(K)), ("v", vi(100)), ("acc", vi(-7))]
         cases.append(evalsrc_case(src, binds=binds))
         want.append((val, list(log)))
@@ -151,6 +167,8 @@ def run(chk):
             if wk == "ERR":
                 if k != "ERR":
                     bad = "a failing body must make the macro fail at that element"
+                elif wv is not None and payload != wv:
+                    bad = "the macro must fail with the failure of the first failing element"
             elif k != "OK" or payload != wv:
                 bad = "macro result differs from its defining fold"
             if bad is None and log != fmt_log(wl):
@@ -168,7 +186,7 @@ def run(chk):
         seen.add(run_impl(rep, isolate=True)[0])
     if len(seen) != 1:
         chk.violation("map over a map is not in one fixed order across executions", dict(case=rep[0], results=sorted(seen)))
-    chk.stream("all/exists/exists_one/filter/map/map3/reduce x 9 predicates x 5 expressions over lists of length 0..64",
+    chk.stream("all/exists/exists_one/filter/map/map3/reduce x 11 predicates (two of them recorded and failing, with different failures at different elements) x 5 expressions over lists of length 0..64",
                n_main, len(set(cases[:n_main])), exhaustive=False)
     chk.stream("scoping: shadowing, outer binding after the macro, nested macros re-using the name, stored programs, map key order",
                len(cases) - n_main + 5, len(cases) - n_main, exhaustive=True)
